@@ -32,6 +32,7 @@ MAP = [
     ("C29", r"get-unwrapped-on-unused-loader", "d309587"),
     ("C30", r"dynamic:execute_stream:execute-hook", "71827b0"),
     ("C33", r"check_types_exists:Interface:implements", "d483a95"),
+    ("C35", r"get-without-mutation-gate:", "0124b3a"),
 ]
 d = json.load(open(P))
 keep = []
